@@ -98,7 +98,7 @@ fn script_for(u: &Unit) -> String {
 }
 
 macro_rules! run_pairs {
-    ($t:ty, $ret:ty, $pkg:expr, $dom:expr, $zero_div_only_with:expr, $cx:expr) => {{
+    ($t:ty, $ret:ty, $pkg:expr, $dom:expr, $zero_first:expr, $zero_div_only_with:expr, $cx:expr) => {{
         let f: TypedFunc<NoCtx, fn($t, $t) -> $ret> = match $pkg.get_function("f") {
             Ok(f) => f,
             Err(e) => {
@@ -111,8 +111,18 @@ macro_rules! run_pairs {
         let mut h: u64 = 0;
         let mut n: u64 = 0;
         let mut not_run: u64 = 0;
-        for (ia, a) in dom.iter().enumerate() {
-            for (ib, b) in dom.iter().enumerate() {
+        // Trapping pairs first: every trap kills the worker and the unit is
+        // re-run from its start up to that pair, so the zero-divisor column
+        // of a dividing operator is enumerated before everything else
+        // (sub-case ids do not depend on the order).
+        let zero_ib: Option<usize> = if $zero_first { dom.iter().position(|x| *x == 0) } else { None };
+        let first = zero_ib.into_iter().flat_map(|ib| (0..dom.len()).map(move |ia| (ia, ib)));
+        let rest = (0..dom.len())
+            .flat_map(|ia| (0..dom.len()).map(move |ib| (ia, ib)))
+            .filter(|(_, ib)| Some(*ib) != zero_ib);
+        for (ia, ib) in first.chain(rest) {
+            {
+                let (a, b) = (&dom[ia], &dom[ib]);
                 if *b == 0 {
                     if let Some(bd) = zero_div_only_with {
                         if !bd.contains(a) {
@@ -168,14 +178,14 @@ fn run_arith(u: &Unit, cx: &mut Cx) {
     // therefore paired with the boundary dividends only (the trap does not
     // depend on the dividend); all other pairs run. 65 536 deaths per unit
     // would also exceed vcore's cap of 5 000 deaths per unit.
-    let zero_div_only_with: Option<Vec<i128>> =
-        (["/", "%", "/=", "%="].contains(&op) && dom.len() > 256).then(|| boundary(ty));
+    let div_like = ["/", "%", "/=", "%="].contains(&op);
+    let zero_div_only_with: Option<Vec<i128>> = (div_like && dom.len() > 256).then(|| boundary(ty));
     macro_rules! go {
         ($t:ty) => {
             if is_cmp {
-                run_pairs!($t, bool, pkg, &dom, &zero_div_only_with, cx)
+                run_pairs!($t, bool, pkg, &dom, div_like, &zero_div_only_with, cx)
             } else {
-                run_pairs!($t, $t, pkg, &dom, &zero_div_only_with, cx)
+                run_pairs!($t, $t, pkg, &dom, div_like, &zero_div_only_with, cx)
             }
         };
     }
